@@ -210,6 +210,9 @@ class Runner:
         sess = res.session
         if isinstance(res.exc, (sched.NoProgress, sched.PoolHang)):
             raise Violation(PROP, "no-progress", self.where, "pooled evaluation did not finish: %s" % res.exc)
+        if res.pending:
+            raise Violation(PROP, "tasks-outlive-calculate", self.where,
+                            "%d submitted task(s) were still pending when calculate returned" % res.pending)
         if not sess.pool_engaged:
             # pooling did not engage (not this property's business); judged like a serial run by count
             if not at and (res.exc is not None or inj.calls != k):
